@@ -133,6 +133,11 @@ func pairAll(c *core.Ctx, a, b string, legacy bool) {
 	c.Count("pair-calls")
 }
 
+// depth-growth family: (depth of the document, depth of the value added at its bottom)
+var growthDV = [][2]int{{100, 9999}, {1200, 9000}, {9000, 1500}, {5001, 5000}, {9999, 2}, {9999, 9999}, {9000, 5000}, {9998, 1}}
+
+const growthScripts = 6
+
 func tokenString(idx int) string {
 	var sb strings.Builder
 	for _, s := range nthSeq(idx, len(tokenAlphabet)) {
@@ -179,6 +184,9 @@ func init() {
 				if m.Counts[k] < 1000 {
 					out = append(out, k+" fewer than 1000")
 				}
+			}
+			if m.Counts["depth-growth-cases"] < 40 {
+				out = append(out, "depth-growth family incomplete")
 			}
 			if (t == core.Thorough && m.Counts["depth-cases"] < int64(24*depthVariants)) || m.Counts["depth-cases"] < int64(12*depthVariants) {
 				out = append(out, "depth family incomplete")
@@ -385,6 +393,82 @@ func init() {
 				}
 				c.Count("depth-cases")
 				c.Nontrivial("d", fmt.Sprint(idx), fmt.Sprint(variant))
+			}},
+			{Name: "depth-growth", Exhaustive: true, Guard: 400 * time.Second, Count: func(t core.Tier) int {
+				if t == core.Thorough {
+					return len(growthDV) * 2 * growthScripts * 2
+				}
+				return 2 * 2 * growthScripts * 2
+			}, Run: func(c *core.Ctx, idx int) {
+				// operations assemble a value that is nested deeper than the decoder's limit of 10 000
+				// (a deep value added at the bottom of a deep document) and then copy it, move it,
+				// descend into the copy, test it, merge it: each part was valid where it came from,
+				// the whole is only ever seen by the code that re-reads text the library produced itself
+				legacy := idx%2 == 1
+				idx /= 2
+				script := idx % growthScripts
+				idx /= growthScripts
+				kind := idx % 2
+				dv := growthDV[idx/2]
+				D, V := dv[0], dv[1]
+				doc, val := nested(kind, D), nested(kind, V)
+				tok := "/0"
+				app := "/-"
+				if kind == 1 {
+					tok, app = "/a", "/zz"
+					doc = strings.Repeat(`{"a":`, D) + "{}" + strings.Repeat("}", D)
+				}
+				bottom := strings.Repeat(tok, D)
+				addDeep := OpText("add", bottom+app, "", val, true)
+				o := optSet{neg: true, esc: true}
+				var ops []string
+				switch script {
+				case 0: // copy an ancestor of the deep place to a sibling, then descend into the copy
+					ops = []string{addDeep, OpText("copy", app, tok, "", false), OpText("add", app+strings.Repeat(tok, 3)+app, "", "1", true)}
+				case 1: // copy the whole document into itself, then test inside the copy
+					ops = []string{addDeep, OpText("copy", app, "", "", false), OpText("test", app+tok+tok, "", "1", true)}
+				case 2: // move the deep subtree up, remove inside it
+					ops = []string{addDeep, OpText("move", app, strings.Repeat(tok, 5), "", false), OpText("remove", app+tok+tok, "", "", false)}
+				case 3: // grow twice, then compare the whole document
+					ops = []string{addDeep, OpText("add", bottom+app+strings.Repeat(tok, V)+app, "", val, true), OpText("test", "", "", `{"x":1}`, true)}
+				case 4: // copy of a copy, replace inside
+					ops = []string{addDeep, OpText("copy", app, tok, "", false), OpText("copy", app+tok+app, app, "", false), OpText("replace", app+tok+tok, "", "null", true)}
+				case 5: // the merge functions on documents whose combination is too deep
+					pv := strings.Repeat(`{"a":`, D) + `{"zz":` + val + "}" + strings.Repeat("}", D)
+					if kind == 0 {
+						pv = `{"k":` + doc + `,"v":` + val + "}"
+					}
+					pairAll(c, doc, pv, legacy)
+					pairAll(c, pv, doc, legacy)
+					var out []byte
+					if !legacy {
+						robustReport(c, "v5", "MergePatch", mon.Try(func() { out, _ = jp.MergePatch([]byte(`{"a":`+doc+`}`), []byte(`{"a":`+pv+`}`)) }), map[string]any{"depth": D, "value_depth": V})
+					}
+					if out != nil {
+						pairAll(c, string(out), string(out), legacy)
+						applyAllV5(c, string(out), `[{"op":"test","path":"/a","value":1}]`, o)
+					}
+				}
+				if ops != nil {
+					if legacy {
+						applyAllLegacy(c, doc, PatchText(ops), o)
+					} else {
+						applyAllV5(c, doc, PatchText(ops), o)
+						// and once more on what the library returned
+						var out []byte
+						robustReport(c, "v5", "Apply", mon.Try(func() {
+							if p, err := jp.DecodePatch([]byte(PatchText(ops[:1]))); err == nil {
+								out, _ = p.Apply([]byte(doc))
+							}
+						}), map[string]any{"depth": D, "value_depth": V})
+						if out != nil {
+							applyAllV5(c, string(out), PatchText(ops[1:]), o)
+							pairAll(c, string(out), doc, false)
+						}
+					}
+				}
+				c.Count("depth-growth-cases")
+				c.Nontrivial("g", fmt.Sprint(kind, D, V, script, legacy))
 			}},
 			{Name: "long-tokens-and-overflow", Count: n(3000, 60000), Run: func(c *core.Ctx, idx int) {
 				big := strings.Repeat("9", 1+c.R.Intn(400))
